@@ -22,7 +22,7 @@ TESTS = {
                         bound='5 structured accepted private-key byte strings per parameter set (generated, arbitrary t0, zero t0 bytes, all s = +eta, all s = -eta): re-serialised identically'),
     'nf_infinity_norm': dict(fns=['infinity_norm', 'center_mod'], props=['C02', 'C01', 'C03', 'C15'],
                              bound='one-hot vectors at 4 indices x 5 values around each of 12 anchors (0, gamma1-beta, gamma2, (q-1)/2, q, domain end; both signs) and 7 two-hot vectors'),
-    'nf_reductions': dict(fns=['partial_reduce64', 'partial_reduce32', 'full_reduce32', 'mont_reduce', 'to_mont', 'mat_vec_mul'], props=['C15', 'C18', 'C13'],
+    'nf_reductions': dict(fns=['partial_reduce64', 'partial_reduce32', 'full_reduce32', 'mont_reduce', 'to_mont', 'mat_vec_mul'], props=['C15', 'C18', 'C13', 'C09', 'C02'],
                           bound='partial_reduce64 on ~4200 points of its domain (powers of two, ends, multiples of q, LCG sweep), partial/full_reduce32 on ~950 points, mont_reduce on 100 caller-shaped products'),
     'nf_sk_fields': dict(fns=['sk_decode', 'expand_private', 'try_from_bytes', 'bit_unpack', 'is_in_range'], props=['C10', 'C13'],
                          bound='every s1/s2 field position x every field value, on one honestly generated key per parameter set'),
